@@ -146,16 +146,12 @@ def step (st : KState) (j : Json) : KState × Json :=
   | some "valbits" =>
     match hstr? j "g", hstr? j "id", strs? j "bits" with
     | some g, some id, some bits =>
-      if hasGraph st g && noNul id && id != "" then
-        -- SPEC: the Struct round trip is the identity on float64 bit patterns (three read paths).
-        -- MODEL (structpb Value.AsInterface on the write path, gdbi.NewElementFromVertex): NaN and
-        -- the infinities come back as the strings "NaN" / "Infinity" / "-Infinity".
-        let specRow := listJ (bits.map Json.str)
-        let modelRow := listJ (bits.map fun b => if nonFiniteHex b then Json.str "not-a-number:string" else Json.str b)
-        let obs (row : Json) := Json.mkObj [("r", "ok"), ("get", row), ("list", row), ("trav", row)]
-        if bits.any nonFiniteHex then
-          (st, (obs modelRow).setObjVal! "spec" (obs specRow) |>.setObjVal! "kf" "C16-nonfinite-number")
-        else (st, obs specRow)
+      if hasGraph st g && noNul id && id != "" && !(bits.any nonFiniteHex) then
+        -- the Struct round trip is the identity on finite float64 bit patterns (three read paths);
+        -- NaN and the infinities are refused by Validate (after `fix: Validate rejects NaN and
+        -- infinite property values`): stored verbatim or rejected
+        let row := listJ (bits.map Json.str)
+        (st, Json.mkObj [("r", "ok"), ("get", row), ("list", row), ("trav", row)])
       else (st, Json.mkObj [("r", "err")])
     | _, _, _ => (st, Drv.bad "valbits: fields")
   | some _ =>
